@@ -175,6 +175,7 @@ def run_check(prop, tier, seed, budget=None, only=None, keep=False, quiet=False,
         if callable(shards):
             shards = shards(tier)
         procs = []
+        procs_args = {}
         for i in range(shards):
             out = os.path.join(workdir, "result-%d.json" % i)
             args = [binary, "-tier", tier, "-seed", str(seed), "-out", out, "-shard", "%d/%d" % (i, shards)]
@@ -185,20 +186,47 @@ def run_check(prop, tier, seed, budget=None, only=None, keep=False, quiet=False,
             if only:
                 args += ["-only", only]
             args += cfg.get("args", []) + (xargs.split() if xargs else [])
+            procs_args[i] = list(args)
             log = open(os.path.join(workdir, "log-%d.txt" % i), "w")
             pre = "ulimit -v %d; " % cfg.get("vmem_kb", 16 * 1024 * 1024)
             procs.append((i, out, log, subprocess.Popen(["bash", "-c", pre + 'exec "$@"', "x"] + args, cwd=workdir, env=dict(ENV, **cfg.get("env", {})), stdout=log, stderr=subprocess.STDOUT)))
         results, hard = [], []
+        deaths = []
         for i, out, log, p in procs:
             rc = p.wait()
             log.close()
             txt = open(log.name).read()
+            restarts = 0
+            # a case may kill the whole process (fatal error: out of memory / stack overflow cannot be recovered):
+            # attribute the death to the case recorded in the progress file and resume the shard after it
+            while rc != 0 and cfg.get("crash_resume") and os.path.exists(out + ".progress") and restarts < 40:
+                prog = json.load(open(out + ".progress"))
+                if os.path.exists(out):  # checkpoint of everything the dead process had finished before the fatal case
+                    try:
+                        part = json.load(open(out))
+                        part["exhaustive"] = True
+                        results.append(part)
+                    except Exception:
+                        pass
+                out = os.path.join(workdir, "result-%d-r%d.json" % (i, restarts + 1))
+                reason = next((l for l in txt.splitlines() if l.startswith("fatal error") or l.startswith("runtime: out of memory") or l.startswith("panic:")), "exit status %d" % rc)
+                deaths.append(dict(sig=prog["sig"], detail="the check process died while running this case: %s\n%s" % (reason, txt[-1500:]), replay=prog["replay"], count=1))
+                restarts += 1
+                args = [a for a in procs_args[i]]
+                args[args.index("-out") + 1] = out
+                args += ["-resume-after", str(prog["n"])]
+                with open(log.name, "a") as lg:
+                    rc = subprocess.call(["bash", "-c", pre + 'exec "$@"', "x"] + args, cwd=workdir, env=dict(ENV, **cfg.get("env", {})), stdout=lg, stderr=subprocess.STDOUT)
+                txt = open(log.name).read()
             if not quiet:
                 sys.stderr.write(txt[-20000:])
             if rc != 0 or not os.path.exists(out):
                 hard.append("harness process %d exited with %d without a result: %s" % (i, rc, txt[-3000:]))
                 continue
-            results.append(json.load(open(out)))
+            r = json.load(open(out))
+            results.append(r)
+        if deaths:
+            results.append(dict(violations=deaths, exhaustive=True))
         race_report = None
         if cfg.get("race") and not hard:
             rb, _ = go_build(workdir, ov_plain(workdir, cfg.get("patches")), cfg["cmd"], race=True)
@@ -255,7 +283,7 @@ def finish(prop, cfg, tier, seed, results, hard, notes, fallback, race_report, w
         merged["states"] += r.get("states", 0)
         merged["transitions"] += r.get("transitions", 0)
         merged["nontrivial"] += r.get("distinct_nontrivial", 0)
-        merged["samples"] += r.get("samples", [])
+        merged["samples"] += r.get("samples") or []
         for sc in r.get("scenarios") or []:
             prev = next((x for x in merged["scenarios"] if x["name"] == sc["name"]), None)
             if prev is None:
@@ -271,17 +299,20 @@ def finish(prop, cfg, tier, seed, results, hard, notes, fallback, race_report, w
                     oc[o] = oc.get(o, 0) + c
         merged["exhaustive"] = merged["exhaustive"] and r.get("exhaustive", False)
         merged["rule"] = r.get("rule", merged["rule"])
-        for a in r.get("assumptions", []):
+        for a in r.get("assumptions") or []:
             if a not in merged["assumptions"]:
                 merged["assumptions"].append(a)
         merged["notes"] += r.get("notes") or []
         for k, v in (r.get("extra") or {}).items():
             if isinstance(v, (int, float)) and isinstance(merged["extra"].get(k), (int, float)):
                 merged["extra"][k] += v
+            elif isinstance(v, dict) and isinstance(merged["extra"].get(k), dict) and all(isinstance(x, (int, float)) for x in v.values()):
+                for kk, vv in v.items():
+                    merged["extra"][k][kk] = merged["extra"][k].get(kk, 0) + vv
             else:
                 merged["extra"][k] = v
-        hard += r.get("hard_errors", [])
-        for v in r.get("violations", []):
+        hard += r.get("hard_errors") or []
+        for v in r.get("violations") or []:
             if v["sig"] in vio:
                 vio[v["sig"]]["count"] += v.get("count", 1)
             else:
